@@ -224,7 +224,8 @@ def mm(op, input, other):
             and p % 8 == 0
         ):
             # Use integer GEMM
-            out_data = torch._int_mm(input._data, other._data)
+            # torch._int_mm reads dense matrices: materialize expanded (stride 0) operands
+            out_data = torch._int_mm(input._data.contiguous(), other._data.contiguous())
             # We must evaluate the output as float32 because the multiplication
             # of the int32 data by the scales might overflow
             fp32_output = (input._scale * other._scale).to(torch.float32) * out_data
